@@ -387,6 +387,22 @@ func voteFloods() []hostile {
 				}})
 		}
 	}
+	// the same for +2/3 claims: a claim for a round the node does not track creates nothing at all in the real code
+	for _, typ := range []byte{types.VoteTypePrevote, types.VoteTypePrecommit} {
+		typ := typ
+		mk := func(w *world, i int) interface{} {
+			return &cs.VoteSetMaj23Message{Height: w.h, Round: w.round() + 2 + i, Type: typ, BlockID: w.ids[0]}
+		}
+		out = append(out, hostile{name: fmt.Sprintf("VoteSetMaj23Flood{t%d,%d unknown rounds}", typ, K), ch: cs.StateChannel, flood: 2,
+			msg: func(w *world) interface{} { return mk(w, 0) },
+			follow: func(w *world) []interface{} {
+				var ms []interface{}
+				for i := 1; i < K; i++ {
+					ms = append(ms, mk(w, i))
+				}
+				return ms
+			}})
+	}
 	return out
 }
 
